@@ -78,6 +78,8 @@ def mutable_parts(obj, depth=0, path=''):
         return parts
     if attr.has(type(obj)):
         for f in attr.fields(type(obj)):
+            if not f.init:
+                continue          # derived state (set by __attrs_post_init__), not something a caller assigns
             try:
                 v = getattr(obj, f.name)
             except AttributeError:
@@ -171,23 +173,33 @@ def edit_in_place(part, k):
         part.add('verif-%d' % k)
         return 'set.add'
     if attr.has(type(part)):
+        # every applicable single-field assignment; k selects one (size-changing ones first: they are what cached
+        # sizes and length prefixes of the enclosing containers have to follow)
+        edits = []
         for f in attr.fields(type(part)):
+            if not f.init:
+                continue
             try:
                 v = getattr(part, f.name)
             except AttributeError:
                 continue
+            if isinstance(v, bytes) and not isinstance(v, ArrayBase):
+                edits.insert(0, (f.name, v + v + b'\x01', 'attr.bytes'))
+            elif isinstance(v, bool):
+                edits.append((f.name, not v, 'attr.bool'))
+            elif isinstance(v, enum.Enum):
+                members = list(type(v))
+                if len(members) > 1:
+                    edits.append((f.name, members[(members.index(v) + 1) % len(members)], 'attr.enum'))
+        for j in range(len(edits)):
+            name, val, what = edits[(k + j) % len(edits)]
             try:
-                if isinstance(v, bool):
-                    object.__setattr__(part, f.name, not v) if getattr(type(part), '__attrs_attrs__', None) is None else setattr(part, f.name, not v)
-                    return 'attr.bool'
-                if isinstance(v, enum.Enum):
-                    members = list(type(v))
-                    if len(members) > 1:
-                        setattr(part, f.name, members[(members.index(v) + 1) % len(members)])
-                        return 'attr.enum'
-                if isinstance(v, int) and not isinstance(v, bool):
-                    setattr(part, f.name, v ^ 1)
-                    return 'attr.int'
+                # only assignments the constructor would accept as they are (assignment runs no validator or converter;
+                # a value outside the declared domain would not be "an object the library lets a caller construct")
+                if getattr(attr.evolve(part, **{name.lstrip('_'): val}), name) != val:
+                    continue
+                setattr(part, name, val)
+                return what
             except Exception:  # pylint: disable=broad-except
                 continue
     return None
